@@ -420,6 +420,28 @@ def big_cases(ctx, tmpdir):
         ctx.case_done(None, ('big-pruned', fmt))
         if fails:
             ctx.oracle_failure(info, fails[:3], {})
+    # more than 2**15 structures, pruned to three that keep identifiers beyond 2**15
+    n2 = 33200
+    vals2 = [(i % 2) * 1000 + rng.randint(1, 400) * 2 + (i % 2) for i in range(n2)]
+    vals2[-40], vals2[-20] = 10 ** 6, 2 * 10 ** 6
+    arr2 = np.array(vals2, dtype=float)
+    case2 = {'shape': [n2], 'vals': vals2, 'scale': 0}
+    for fmt in ('hdf5', 'fits'):
+        dp = Dendrogram.compute(arr2)
+        n_before = len(dp)
+        dp.prune(min_delta=5 * 10 ** 5)
+        info = {'stream': 'more than 2**15 structures pruned to few with identifiers beyond 2**15', 'n_pixels': n2, 'structures_before': n_before,
+                'structures': len(dp), 'largest_id': max([int(s.idx) for s in dp] or [0]), 'format': fmt}
+        try:
+            d2 = roundtrip(dp, fmt, 'auto', False, tmpdir)
+            fails, _ = compare_loaded(case2, dp, d2, fmt, False)
+        except Exception as e:
+            ctx.oracle_failure(info, ['save/load raised %r' % (e,)], {'exc': type(e).__name__})
+            continue
+        ctx.notes['2**15 pruned (%s)' % fmt] = {'structures_before': n_before, 'structures': len(dp), 'largest_id': info['largest_id']}
+        ctx.case_done(None, ('2**15-pruned', fmt))
+        if fails:
+            ctx.oracle_failure(info, fails[:3], {})
     # deep chain: a staircase with a small bump on every step nests one branch per step
     depth = 1300
     vals = []
